@@ -82,7 +82,8 @@ def check(ctx, case):
         ctx.tick()
         return
     got = as_set(pts, vals, si, ci)
-    oracle = pc.brute_local_peaks(maps.astype(np.float64), thr)
+    # the threshold is compared in the map's own precision (a float32 cell equal to float32(thr) does not *exceed* thr)
+    oracle = pc.brute_local_peaks(maps.astype(np.float64), float(dt(thr)))
     got_cells = [(s, c, int(y), int(x)) for s, c, y, x, v in got]
     ctx.count("oracle_peaks", len(oracle))
     if any(float(int(y)) != y or float(int(x)) != x for s, c, y, x, v in got):
